@@ -27,11 +27,11 @@ theorem Inv.lockStep {s : State} (hI : Inv s) {a : Actor} {f : Nat} {p : Pc} (hf
     (hs9 : ∀ m v, p ≠ .cTake m v)
     (hsw : ∀ g v n ver m, p = .wLink g v n ver m → s.pc a = .wLock g v n ver)
     (hsw1 : ∀ g v n ver, p ≠ .wCons g v n ver) (hsw2 : ∀ g v n ver, p ≠ .wLock g v n ver)
-    (hsw3 : ∀ n ver, p ≠ .wTake n ver) (hsw4 : ∀ n, p ≠ .wFree n) :
+    (hsw3 : ∀ n ver, p ≠ .wTake n ver) (hsw4 : ∀ n, p ≠ .wFree n) (hfw : ∀ n, s.pc a ≠ .wFree n) :
     Inv (({ s with lock := upd s.lock f (some a) }).setPc a p) := by
   have hI' := hI
-  obtain ⟨kindC, kindF, lockOk, frWait, freshOk, freshVer, freshVerT, freshNode, wFreeTaken, preOk, postOk, ownOk, rsmTaken,
-    freeTaken, pubNode, waiting, parked, listOk, scanOk, prevOk, oScanOk, oNoneOk, aUnlockOk, aNextOk, aResumeOk, aFreeOk,
+  obtain ⟨kindC, kindF, lockOk, frWait, freshOk, freshUniq, freshVer, freshVerT, freshNode, wFreeTaken, preOk, postOk, ownOk, rsmTaken,
+    freeTaken, pubNode, waiting, parked, listOk, scanOk, prevOk, placed, oScanOk, oNoneOk, aUnlockOk, aNextOk, aResumeOk, aFreeOk,
     noRead, cTakeOk, allocUsed, noBad⟩ := hI
   constructor
   case kindC => inv_auto
@@ -39,6 +39,7 @@ theorem Inv.lockStep {s : State} (hI : Inv s) {a : Actor} {f : Nat} {p : Pc} (hf
   case lockOk => inv_auto
   case frWait => inv_auto
   case freshOk => inv_auto
+  case freshUniq => inv_auto
   case freshVer => inv_auto
   case freshVerT => inv_auto
   case freshNode => inv_auto
@@ -69,6 +70,7 @@ theorem Inv.lockStep {s : State} (hI : Inv s) {a : Actor} {f : Nat} {p : Pc} (hf
     · inv_simp; grind
     · inv_simp; grind [updA, upd, Pc.pend, Pc.locks]
     · inv_simp; grind [updA]
+  case placed => inv_auto
   case oScanOk => inv_auto
   case oNoneOk => inv_auto
   case aUnlockOk => inv_auto
@@ -101,11 +103,12 @@ theorem Inv.unlockStep {s : State} (hI : Inv s) {a : Actor} {f : Nat} {p : Pc}
     (hs9 : ∀ m v, p ≠ .cTake m v)
     (hsw : ∀ g v n ver m, p ≠ .wLink g v n ver m)
     (hsw1 : ∀ g v n ver, p ≠ .wCons g v n ver) (hsw2 : ∀ g v n ver, p ≠ .wLock g v n ver)
-    (hsw3 : ∀ n ver, p = .wTake n ver → ∃ g v, s.pc a = .wLink g v n ver false) (hsw4 : ∀ n, p ≠ .wFree n) :
+    (hsw3 : ∀ n ver, p = .wTake n ver → (s.box n).ver = ver) (hsw4 : ∀ n, p ≠ .wFree n) (hfw : ∀ n, s.pc a ≠ .wFree n) :
     Inv (({ s with lock := upd s.lock f none }).setPc a p) := by
   have hI' := hI
-  obtain ⟨kindC, kindF, lockOk, frWait, freshOk, freshVer, freshVerT, freshNode, wFreeTaken, preOk, postOk, ownOk, rsmTaken,
-    freeTaken, pubNode, waiting, parked, listOk, scanOk, prevOk, oScanOk, oNoneOk, aUnlockOk, aNextOk, aResumeOk, aFreeOk,
+  have hla := (hI.lockOk f a).2 hl
+  obtain ⟨kindC, kindF, lockOk, frWait, freshOk, freshUniq, freshVer, freshVerT, freshNode, wFreeTaken, preOk, postOk, ownOk, rsmTaken,
+    freeTaken, pubNode, waiting, parked, listOk, scanOk, prevOk, placed, oScanOk, oNoneOk, aUnlockOk, aNextOk, aResumeOk, aFreeOk,
     noRead, cTakeOk, allocUsed, noBad⟩ := hI
   constructor
   case kindC => inv_auto
@@ -113,6 +116,7 @@ theorem Inv.unlockStep {s : State} (hI : Inv s) {a : Actor} {f : Nat} {p : Pc}
   case lockOk => inv_auto
   case frWait => inv_auto
   case freshOk => inv_auto
+  case freshUniq => inv_auto
   case freshVer => inv_auto
   case freshVerT => inv_auto
   case freshNode => inv_auto
@@ -143,6 +147,7 @@ theorem Inv.unlockStep {s : State} (hI : Inv s) {a : Actor} {f : Nat} {p : Pc}
     · inv_simp; grind
     · inv_simp; grind [updA, upd, Pc.pend, Pc.locks]
     · inv_simp; grind [updA]
+  case placed => inv_auto
   case oScanOk => inv_auto
   case oNoneOk => inv_auto
   case aUnlockOk => inv_auto
